@@ -2,11 +2,14 @@
 # run_mutants.sh — every hand-made mutant against the check named by its prefix (c07_xxx -> C07); prints one line each.
 # Expected: VIOLATION for all except the ones listed in selftest/expected_quiet.txt (changes that do not break the property).
 cd /verif
-for f in selftest/mutants/*.diff; do
+one() {
+  f=$1
   n=$(basename $f .diff); p=$(echo ${n%%_*} | tr a-z A-Z)
   out=$(./selftest/with_patch.sh $f $p quick 2>&1 | grep -E "^VIOLATION|patch does not apply" | head -1 | cut -c1-90)
   if grep -qx "$n" selftest/expected_quiet.txt; then exp=quiet; else exp=VIOLATION; fi
   if [ -z "$out" ]; then got=quiet; elif echo "$out" | grep -q "does not apply"; then got=STALE; else got=VIOLATION; fi
   [ "$got" = "$exp" ] && s=ok || s=UNEXPECTED
   echo "$s $n expected=$exp got=$got $out"
-done
+}
+export -f one
+ls selftest/mutants/*.diff | xargs -P 4 -I{} bash -c 'one {}'
